@@ -114,7 +114,7 @@ func genC11(t *rapid.T) any {
 	}
 	// lifecycle subs
 	recvExtra := calls(nUser, -1)
-	inc := rapid.SampledFrom([]string{"", "", "root-present", "root-missing", "root-self", "root-mutual", "stmt-present", "stmt-self", "stmt-mutual", "stmt-missing"}).Draw(t, "include")
+	inc := rapid.SampledFrom([]string{"", "", "root-present", "root-missing", "root-self", "root-mutual", "stmt-present", "stmt-self", "stmt-mutual", "stmt-missing", "stmt-self-nested", "stmt-mutual-nested", "stmt-sibling-then-self"}).Draw(t, "include")
 	if inc != "" {
 		feat["include:"+inc] = true
 	}
@@ -129,6 +129,17 @@ func genC11(t *rapid.T) any {
 		recvExtra = append(recvExtra, "  include \"s1\";")
 		c.Modules["s1"] = "set req.http.X-S1 = \"1\";\ninclude \"s2\";\n"
 		c.Modules["s2"] = "set req.http.X-S2 = \"1\";\ninclude \"s1\";\n"
+	case "stmt-self-nested":
+		recvExtra = append(recvExtra, "  include \"s1\";")
+		c.Modules["s1"] = "set req.http.X-S1 = \"1\";\nif (req.http.X-A) {\n  include \"s1\";\n}\n"
+	case "stmt-mutual-nested":
+		recvExtra = append(recvExtra, "  include \"s1\";")
+		c.Modules["s1"] = "if (req.http.X-A) {\n  set req.http.X-S1 = \"1\";\n} else {\n  include \"s2\";\n}\n"
+		c.Modules["s2"] = "switch (req.http.X-A) {\ncase \"a\":\n  include \"s1\";\n  break;\n}\n"
+	case "stmt-sibling-then-self":
+		recvExtra = append(recvExtra, "  include \"s1\";")
+		c.Modules["s1"] = "include \"s2\";\ninclude \"s1\";\n"
+		c.Modules["s2"] = "set req.http.X-S2 = \"1\";\n"
 	case "stmt-missing":
 		recvExtra = append(recvExtra, "  include \"nope\";")
 	case "root-present":
